@@ -231,11 +231,34 @@ fn do_small_wr(ctx: &mut Ctx, d: u8, ms: u64) {
     }
 }
 
+/// every scaled time field of a frame, at its place in its packet: decoding the frame and encoding the result leaves the
+/// field's wire bytes as they were (the helper functions are covered above; this covers how each *field* is wired to them)
+pub fn dur_fields_case(ctx: &mut Ctx, ls: &crate::pkt::Layouts, compressed: bool, frame: &[u8]) {
+    use crate::pkt::*;
+    let l = match ls.kinds.iter().find(|l| l["type_no"].as_u64() == frame.get(1).map(|b| *b as u64)) { Some(l) => l.clone(), None => return };
+    let kind = l["kind"].as_str().unwrap_or("?").to_string();
+    let op = format!("pkt.rt {}", frame_text(compressed, frame));
+    ctx.oracle_eval("time-field");
+    let p = match real_decode(compressed, frame) { Dec::Pkt(p, _) => p, Dec::Panic => { ctx.violation(&format!("c15/field/{}/decode-abort", kind), "decoding a frame with an in-range time field aborted", &op, "a packet", "panic"); return; }, _ => return };
+    let e = match real_encode(compressed, &p) { Some(Ok(b)) => b, _ => return };
+    let mut off = 2usize;
+    for f in l["fields"].as_array().cloned().unwrap_or_default() {
+        off += f["rb"].as_u64().unwrap_or(0) as usize;
+        let w = ty_size(&f["ty"]);
+        if f["ty"]["k"] == "dur" && off + w <= frame.len() && off + w <= e.len() && frame[off..off + w] != e[off..off + w] {
+            ctx.violation(&format!("c15/field/{}.{}/reencode", kind, f["path"].as_str().unwrap_or("?")), "a time field's wire value does not survive decoding and re-encoding", &op, &hex(&frame[off..off + w]), &hex(&e[off..off + w]));
+        }
+        off += w + f["ra"].as_u64().unwrap_or(0) as usize;
+    }
+}
+
 pub fn run(ctx: &mut Ctx) {
     if let Some(lines) = ctx.replay.clone() {
+        let ls = crate::pkt::load_layouts();
         for l in lines {
             let w: Vec<&str> = l.split_whitespace().collect();
             match w.as_slice() {
+                ["pkt.rt", m, h] => dur_fields_case(ctx, &ls, *m == "c", &unhex(h)),
                 ["dur.rd", a, b, c] => do_rd(ctx, a.parse().unwrap(), b.parse().unwrap(), c.parse().unwrap(), true),
                 ["dur.wr", a, b, c] => do_wr(ctx, a.parse().unwrap(), b.parse().unwrap(), c.parse().unwrap()),
                 ["laps.rd", b] => do_laps_rd(ctx, b.parse().unwrap()),
@@ -248,6 +271,39 @@ pub fn run(ctx: &mut Ctx) {
             }
         }
         return;
+    }
+    // every time field of every packet kind, in place: boundary wire values (all 65536 for the 16-bit fields in thorough)
+    {
+        use crate::pkt::*;
+        let ls = load_layouts();
+        let mut nf = 0u64;
+        for compressed in [true, false] {
+            for l in ls.kinds.clone().iter() {
+                let fields = l["fields"].as_array().cloned().unwrap_or_default();
+                if !fields.iter().any(|f| f["ty"]["k"] == "dur") { continue; }
+                let base = gen_frame(&mut Rng::new(11), l, compressed, &GenOpts { wild: 0, text: 0, count: Some(1) });
+                let mut off = 2usize;
+                for f in &fields {
+                    off += f["rb"].as_u64().unwrap_or(0) as usize;
+                    let w = ty_size(&f["ty"]);
+                    if f["ty"]["k"] == "dur" {
+                        nf += 1;
+                        let mut vals: Vec<u64> = vec![0, 1, 2, 9, 10, 11, 99, 100, 255, 256, 1000, 6553, 6554, 32767, 32768, 65534, 65535];
+                        if w == 4 { vals.extend_from_slice(&[65536, 0x19999999, 0x1999999a, 0x7fffffff, 0x80000000, 0xfffffffe, 0xffffffff]); }
+                        if w == 2 && !ctx.quick() { vals = (0..=65535u64).collect(); }
+                        for v in vals {
+                            if off + w > base.len() { break; }
+                            let mut fr = base.clone();
+                            fr[off..off + w].copy_from_slice(&v.to_le_bytes()[..w]);
+                            dur_fields_case(ctx, &ls, compressed, &fr);
+                        }
+                    }
+                    off += w + f["ra"].as_u64().unwrap_or(0) as usize;
+                }
+            }
+        }
+        *ctx.distribution.entry("time fields swept in place (both modes)".into()).or_insert(0) = nf;
+        ctx.exhaustive_domains.push("every scaled time field of every packet kind in place x boundary wire values x both size modes".into());
     }
     // all 65536 values of 16-bit time fields
     for &(w, s) in &COMBOS[..2] {
